@@ -14,7 +14,8 @@ THEOREMS = [NS + t for t in (
     'C11_cells_count', 'C11_cells_mem', 'C11_cells_nodup', 'C11_cols_same_cells',
     'C11_inter_spec', 'C11_inter_null_iff', 'C11_inter_cells', 'C11_union_bounding', 'C11_union_least',
     'C11_inter_comm', 'C11_union_comm', 'C11_inter_idem', 'C11_union_idem', 'C11_inter_assoc', 'C11_union_assoc',
-    'C11_covers_bounded', 'C11_inter_spec_unbounded', 'C11_inter_cells_unbounded', 'C11_bounded_not_unbounded', 'C11_unbounded_side',
+    'C11_sheet_rule', 'C11_comm_sheets', 'C11_assoc_sheets', 'C11_union_assoc_all_sheets',
+    'C11_inter_assoc_clash_witness', 'C11_covers_bounded', 'C11_inter_spec_unbounded', 'C11_inter_cells_unbounded', 'C11_bounded_not_unbounded', 'C11_unbounded_side',
     'C11_operand_assoc', 'C11_offset_range', 'C11_offset_period', 'C11_offset_add', 'C11_offset_zero',
     'C11_offset_wrap_boundary')]
 DESIGN_REF = 'DESIGN.md §7 C11'
@@ -30,12 +31,12 @@ ASSUMPTIONS = [
     'address text holds no newline and no non-ASCII decimal digit (Python regex `$` / `\\d` quirks are not modelled)',
     'structured references and defined names are observed only as "no such table / name" (a workbook-less cell)',
     'AddressMultiAreaRange and re-wrapping of address objects (AddressRange(obj, sheet=…)) are not modelled',
-    'lattice laws are stated for rectangles of one sheet (the quantifier: rectangles on a grid); mixed-sheet '
-    'operands give #VALUE! and are compared by correspondence only',
+    'operator-level associativity (C11_operand_assoc) is stated for one sheet; the Rect-level laws cover every '
+    'sheet qualification (C11_comm_sheets, C11_assoc_sheets, C11_union_assoc_all_sheets)',
 ]
 TRUSTED = ['modelled, not verified: Python re (ABSOLUTE_RE, R1C1_RANGE_RE, TABLE_REF_RE), str.split/replace, '
            'openpyxl get_column_letter / column_index_from_string / quote_sheetname']
-REQUIRED_BUCKETS = ['comb:unbounded', 'parse:a1', 'parse:r1c1', 'parse:sheet', 'parse:malformed', 'tuple', 'tuple:bang', 'nota',
+REQUIRED_BUCKETS = ['comb:sheets', 'comb:unbounded', 'parse:a1', 'parse:r1c1', 'parse:sheet', 'parse:malformed', 'tuple', 'tuple:bang', 'nota',
                     'comb:i', 'comb:u', 'comb3', 'assoc', 'offset', 'enum', 'contains', 'sheet']
 EXHAUSTIVE = False
 
@@ -291,6 +292,34 @@ def cases(tier, rng):
         for k in 'iu':
             for side in 'lr':
                 yield {'op': 'comb3', 'k': k, 'side': side, 'a': a, 'b': b, 'c': c, 'wf': 1, 'ub': 1}
+    # mixed sheet qualification: none + sheet, sheet + none, same sheet, different sheets (-> #VALUE!), for & and **
+    g2 = grid_rects(2)
+    shs = ['', 'S', 'T']
+
+    def q(sh, t):
+        return (sh + '!' if sh else '') + rect_text(t)
+    for a in g2:
+        for b in g2:
+            for sa in shs:
+                for sb in shs:
+                    if sa or sb:
+                        for k in 'iu':
+                            yield {'op': 'comb', 'k': k, 'a': q(sa, a), 'b': q(sb, b), 'wf': 1, 'ms': 1}
+    for (a, b) in [((1, 1, 4, 5), (2, 3, 2, 3)), ((2, 3, 2, 3), (1, 1, 4, 5)), ((1, 1, 4, 5), (4, 5, 4, 5)),
+                   ((1, 1, 4, 5), (5, 5, 5, 5)), ((1, 1, 4, 5), (2, 2, 3, 3))]:
+        for sa in shs + ['My Sheet']:
+            for sb in shs:
+                for k in 'iu':
+                    qa = ("'My Sheet'!" + rect_text(a)) if sa == 'My Sheet' else q(sa, a)
+                    yield {'op': 'comb', 'k': k, 'a': qa, 'b': q(sb, b), 'wf': 1, 'ms': 1}
+                    yield {'op': 'comb', 'k': k, 'a': q(sb, b), 'b': qa, 'wf': 1, 'ms': 1}
+    mcs = [q(sc, c) for c in g2 for sc in shs]
+    for a in g2:
+        for b in g2:
+            for sa in shs:
+                for sb in shs:
+                    for k in 'iu':
+                        yield {'op': 'assoc', 'k': k, 'a': q(sa, a), 'b': q(sb, b), 'cs': mcs, 'wf': 1, 'ms': 1}
     # sheets on the operands, unbounded and inverted operands, error-code operands
     ops = ['A1', 'B2:C3', 'S!A1', 'S!B2:C3', 'T!B2:C3', "'S 1'!B2:C4", 'A:A', 'A:C', '1:1', '1:3', '2:5', 'XFD2',
            'XFD:XFD', 'B2:A1', 'C5:A1', 'A1048576', '1048576:1048576', '#NULL!', '#VALUE!', '#REF!', 'A0', 'junk',
@@ -564,7 +593,7 @@ def bucket(c):
     if op == 'tuple':
         return 'tuple:bang' if _has_bang(c) else 'tuple'
     if op == 'comb':
-        return 'comb:unbounded' if c.get('ub') else 'comb:' + c['k']
+        return 'comb:unbounded' if c.get('ub') else 'comb:sheets' if c.get('ms') else 'comb:' + c['k']
     if op in ('quote', 'unquote', 'split'):
         return 'sheet'
     return op
@@ -641,6 +670,12 @@ def oracles(results):
                 _parse_fmt(fmt_addr(xl.AddressRange.create(c['b'])))
             ca, cb = _span(a, maxc, maxr), _span(b, maxc, maxr)
             d = _parse_fmt(out)
+            if a['sheet'] and b['sheet'] and a['sheet'] != b['sheet']:
+                if out != 'E ' + T('#VALUE!'):
+                    yield c, f'operands on different sheets give {core.show(out)[:60]} instead of #VALUE!'
+                continue
+            if d is not None and d['sheet'] != (a['sheet'] or b['sheet']):
+                yield c, f'result is on sheet {d["sheet"]!r}, the operands are on {a["sheet"]!r} and {b["sheet"]!r}'
             if d is not None and c.get('ub'):
                 if (d['h'], d['w']) != (d['r2'] - d['r1'] + 1, d['c2'] - d['c1'] + 1) and 0 not in (
                         d['c1'], d['r1'], d['c2'], d['r2']):
@@ -667,6 +702,9 @@ def oracles(results):
         elif op == 'assoc':
             parts = out.split(' ')
             for t, l_, r_ in zip(c['cs'], parts[0::2], parts[1::2]):
+                named = {x.split('!')[0] for x in (c['a'], c['b'], t) if '!' in x}
+                if c['k'] == 'i' and len(named) > 1 and l_.startswith('E') and r_.startswith('E'):
+                    continue      # operands on different sheets: an error either way (#VALUE! or #NULL!)
                 if l_ != r_ or l_.startswith('!'):
                     yield c, f'not associative with c={t}: (a.b).c = {core.show(l_.lstrip("E"))}, ' \
                              f'a.(b.c) = {core.show(r_.lstrip("E"))}'
@@ -723,9 +761,7 @@ def oracles(results):
             k, a, b = key
             o = combs.get((k, b, a))
             if o is not None and a < b:
-                x, y = _parse_fmt(r.impl), _parse_fmt(o.impl)
-                if (x is None) != (y is None) or (x is None and r.impl != o.impl) or \
-                        (x is not None and {**x, 'sheet': ''} != {**y, 'sheet': ''}):
+                if r.impl != o.impl:
                     yield r.case, f'not commutative: {core.show(r.impl)[:60]} vs {core.show(o.impl)[:60]}'
         elif key[1] == 'l':
             o = combs.get((key[0], 'r') + key[2:])
